@@ -1342,7 +1342,87 @@ func entryTypeKnown(p *eng.Prog, fn *ssa.Function, blk *ssa.BasicBlock, base ssa
 	}
 	if sites == 0 {
 		// no direct call: the function may be an entry of a table keyed by the entry type (loaders[entry.Type])
-		return dispatchedByEntryType(p, fn)
+		if dispatchedByEntryType(p, fn) {
+			return true
+		}
+		// or a method of one of several implementations of a small interface, where the implementation is picked by
+		// a function of the entry's type (loaderFor(entry.Type).load(entry))
+		return invokedThroughTypeSelector(p, fn, pi)
+	}
+	return sites > 0 && all
+}
+
+// invokedThroughTypeSelector: every interface call that can reach the method fn passes, as the argument for fn's
+// parameter pi, an entry whose Type field was the argument of the selector function that produced the interface value,
+// and that selector returns each concrete implementation only under a comparison of its parameter with a constant.
+func invokedThroughTypeSelector(p *eng.Prog, fn *ssa.Function, pi int) bool {
+	sites, all := 0, true
+	for _, g := range p.ModuleFuncs() {
+		if g.Pkg != fn.Pkg || g.Blocks == nil {
+			continue
+		}
+		eng.Instrs(g, true, func(in ssa.Instruction) {
+			ci, ok := in.(ssa.CallInstruction)
+			if !ok || !ci.Common().IsInvoke() {
+				return
+			}
+			reaches := false
+			for _, cal := range p.Callees(ci) {
+				if cal == fn {
+					reaches = true
+				}
+			}
+			if !reaches {
+				return
+			}
+			sites++
+			args := eng.ArgsWithRecv(ci)
+			if pi < 0 || pi >= len(args) {
+				all = false
+				return
+			}
+			entry := args[pi]
+			sel, ok := args[0].(*ssa.Call)
+			if !ok {
+				all = false
+				return
+			}
+			sf := eng.StaticCallee(sel)
+			if sf == nil || !eng.InModule(sf) || sf.Blocks == nil || len(sel.Call.Args) != 1 || len(sf.Params) != 1 {
+				all = false
+				return
+			}
+			key := sel.Call.Args[0]
+			if ct, isCT := key.(*ssa.ChangeType); isCT {
+				key = ct.X
+			}
+			fr, okF := eng.LoadOfField(key)
+			if !okF || fr.Field != "Type" || !eng.SameValue(fr.Base, entry) {
+				all = false
+				return
+			}
+			// the selector hands out an implementation only under a test of its parameter
+			for _, r := range eng.Returns(sf) {
+				if len(r.Results) != 1 {
+					all = false
+					continue
+				}
+				if eng.IsNilConst(r.Results[0]) {
+					continue
+				}
+				tested := eng.GuardedBy(sf, r.Block(), func(f eng.Fact) bool {
+					op, x, y, ok := f.Cmp()
+					if !ok || op != token.EQL {
+						return false
+					}
+					_, isC := eng.ConstInt(y)
+					return isC && (x == ssa.Value(sf.Params[0]) || eng.SameValue(x, sf.Params[0]))
+				})
+				if !tested {
+					all = false
+				}
+			}
+		})
 	}
 	return sites > 0 && all
 }
